@@ -3,7 +3,7 @@ From Coq Require Import String ZArith QArith Bool Arith Lia Permutation List.
 From GT Require Import Base.UTree Model.Reroot Model.Prune Model.NNI Model.Heap Model.HeapSpec Proofs.Enum Proofs.HeapBase Proofs.HeapRep
      Proofs.HeapGood Proofs.HeapGoodRep Proofs.HeapRerootL Proofs.HeapReorder Proofs.HeapReroot Proofs.HeapUnrootL Proofs.HeapUnroot
      Proofs.HeapCtx Proofs.HeapGraft Proofs.HeapCollapse Proofs.HeapPrune Proofs.HeapPaths Proofs.HeapCollapseTree
-     Proofs.HeapCollapseSq Proofs.HeapPruneTree.
+     Proofs.HeapCollapseSq Proofs.HeapPruneTree Proofs.HeapTips.
 Import ListNotations.
 Local Close Scope Q_scope.
 
@@ -217,9 +217,9 @@ Qed.
 Lemma nth_error_map_mid {A B} (f : A -> B) l1 a r : nth_error (map f (l1 ++ a :: r)) (length l1) = Some (f a).
 Proof. rewrite map_app. cbn [map]. rewrite <- (map_length f l1). apply nth_error_app_mid. Qed.
 
-Theorem prune_tail_square nm h lt p subq : Rep h lt -> lnode_at lt p = Some subq -> (p = [] \/ length (lslots subq) <> 1) ->
+Theorem prune_tail_square_k nm h lt p subq : Rep h lt -> lnode_at lt p = Some subq -> (p = [] \/ length (lslots subq) <> 1) ->
   match after_root nm p (erase lt) with
-  | Ok t' => exists h' lt', prune_tail nm (lid subq) h = HOk h' /\ Rep h' lt' /\ erase lt' = t'
+  | Ok t' => exists h' lt', prune_tail nm (lid subq) h = HOk h' /\ Rep h' lt' /\ erase lt' = t' /\ Keeps lt lt'
   | Err m => prune_tail nm (lid subq) h = HErr m
   end.
 Proof.
@@ -231,11 +231,12 @@ Proof.
     pose proof (rep_wf _ _ R) as W. apply lwf_iff in W. destruct W as [W0 Wk].
     destruct slq as [|s1 [|s2 [|s3 r]]].
     + rewrite (prune_tail_case3 nm h q hq Eq) by (rewrite Lq; cbn; lia). cbn [map after_del_root].
-      exists h. eexists. split; [reflexivity|]. split; [exact R|]. reflexivity.
+      exists h. eexists. split; [reflexivity|]. split; [exact R|]. split; [reflexivity|apply keeps_refl].
     + destruct s1 as [[[ec eic] [c nmc cmc slc]]|]; [|cbn in W0; discriminate].
       cbn [map erase_slot]. rewrite erase_eq. cbn [after_del_root].
       destruct (drop_root_Rep h q nmq cmq ec eic c nmc cmc slc R) as (h' & Ev & R').
-      exists h'. eexists. split; [|split; [exact R'|rewrite erase_eq, erase_drop_up; reflexivity]].
+      assert (Uc : lnup slc = 1) by exact (proj1 (proj1 (lwf_sub_iff c nmc cmc slc) (Wk _ _ _ (or_introl eq_refl)))).
+      exists h'. eexists. split; [|split; [exact R'|split; [rewrite erase_eq, erase_drop_up; reflexivity|apply keeps_drop_root; exact Uc]]].
       unfold prune_tail, get_node. rewrite Eq. cbn [hbind]. rewrite <- Er, Nat.eqb_refl, Lq. cbn [length Nat.eqb andb].
       rewrite (root_one_child h q nmq cmq ec eic c nmc cmc slc hq R Eq). cbn [nth_res nth_error hbind]. exact Ev.
     + destruct s1 as [[[e1 ei1] [n1 nm1 cm1 sl1]]|]; [|cbn in W0; discriminate].
@@ -243,15 +244,17 @@ Proof.
       pose proof (suppress_root_Rep_x h nm q nmq cmq e1 ei1 n1 nm1 cm1 sl1 e2 ei2 n2 nm2 cm2 sl2 R) as X. cbv zeta in X.
       rewrite (prune_tail_tail nm h q hq Eq) by (rewrite Lq; cbn; lia). rewrite <- Er in X.
       cbn [map erase_slot]. rewrite !erase_eq. cbn [after_del_root uname ucom]. unfold degree. cbn [uslots]. rewrite !map_length.
+      assert (U1 : lnup sl1 = 1) by exact (proj1 (proj1 (lwf_sub_iff n1 nm1 cm1 sl1) (Wk _ _ _ (or_introl eq_refl)))).
+      assert (U2 : lnup sl2 = 1) by exact (proj1 (proj1 (lwf_sub_iff n2 nm2 cm2 sl2) (Wk _ _ _ (or_intror (or_introl eq_refl))))).
       destruct (Nat.ltb 1 (length sl1 - 1)); [|destruct (Nat.ltb 1 (length sl2 - 1))].
-      * destruct X as (h' & Ev & R'). exists h'. eexists. split; [exact Ev|]. split; [exact R'|].
+      * destruct X as (h' & Ev & R'). exists h'. eexists. split; [exact Ev|]. split; [exact R'|]. split; [|exact (proj1 (keeps_unroot q nmq cmq e1 ei1 n1 nm1 cm1 sl1 e2 ei2 n2 nm2 cm2 sl2 _ _ U1 U2))].
         rewrite erase_eq, map_app, erase_drop_up. cbn [map erase_slot reparent uslots]. rewrite erase_eq, map_app, erase_drop_up. reflexivity.
-      * destruct X as (h' & Ev & R'). exists h'. eexists. split; [exact Ev|]. split; [exact R'|].
+      * destruct X as (h' & Ev & R'). exists h'. eexists. split; [exact Ev|]. split; [exact R'|]. split; [|exact (proj2 (keeps_unroot q nmq cmq e1 ei1 n1 nm1 cm1 sl1 e2 ei2 n2 nm2 cm2 sl2 _ _ U1 U2))].
         rewrite erase_eq, map_app, erase_drop_up. cbn [map erase_slot reparent uslots]. rewrite erase_eq, map_app, erase_drop_up. reflexivity.
       * rewrite X. unfold err_no_root, err_two_tips. destruct (Nat.eqb (length sl2 - 1) 1 || Nat.eqb (length sl1 - 1) 1); reflexivity.
     + rewrite (prune_tail_case3 nm h q hq Eq) by (rewrite Lq; cbn; lia).
       rewrite after_del_root_keep by (try exact W0; cbn; lia).
-      exists h. eexists. split; [reflexivity|]. split; [exact R|]. rewrite erase_eq. reflexivity.
+      exists h. eexists. split; [reflexivity|]. split; [exact R|]. split; [rewrite erase_eq; reflexivity|apply keeps_refl].
   - (* an inner node that keeps at least two slots *)
     set (p := k0 :: p0') in *. assert (Np : p <> []) by discriminate. clearbody p.
     destruct (Hne Np) as [Nr W]. apply lwf_sub_iff in W. destruct W as [W1 Wk].
@@ -271,15 +274,21 @@ Proof.
       destruct (splice_calc nm P nmP cmP l1 l2 eP eiP q nmq cmq pfirst eC eiC C nmC cmC slC (hnexte h)) as [S1 S2]. cbv zeta in S1, S2.
       match type of R' with Rep _ (lreplace _ ?new _) => set (newP := new) in * end.
       set (subP := LNode P nmP cmP (l1 ++ Some (eP, eiP, LNode q nmq cmq (if pfirst then [None; Some (eC, eiC, LNode C nmC cmC slC)] else [Some (eC, eiC, LNode C nmC cmC slC); None])) :: l2)) in *.
+      assert (KP : Keeps lt (lreplace P newP lt)).
+      { assert (UC : lnup slC = 1).
+        { assert (Hin : In (Some (eC, eiC, LNode C nmC cmC slC)) slq) by (rewrite Esli; destruct pfirst; [right; left|left]; reflexivity).
+          exact (proj1 (proj1 (lwf_sub_iff C nmC cmC slC) (Wk _ _ _ Hin))). }
+        intros e He _. left. apply (ltips_lreplace P newP lt None pp subP (rep_nd _ _ R) Hsub eq_refl e He).
+        intros Hs. exact (ltips_splice P nmP cmP l1 l2 eP eiP q nmq cmq pfirst eC eiC C nmC cmC slC _ _ UC e Hs). }
       destruct p0 as [|k1 p1].
       * injection HP as HP. cbn [app]. rewrite HP. unfold subP. rewrite erase_eq. cbn [after_root]. rewrite Ek, nth_error_map_mid.
-        cbn [erase_slot]. rewrite S2. exists h'. eexists. split; [exact Ev|]. split; [exact R'|].
+        cbn [erase_slot]. rewrite S2. exists h'. eexists. split; [exact Ev|]. split; [exact R'|]. split; [|rewrite HP in KP at 1; exact KP].
         rewrite HP. unfold subP. rewrite lreplace_eq, Nat.eqb_refl. reflexivity.
       * assert (A : at_path (keep_of nm [k]) (k1 :: p1) (erase lt) = Some (erase (lreplace P newP lt))).
         { apply (erase_lreplace_at_path (keep_of nm [k]) newP (k1 :: p1) lt subP HP (rep_nd _ _ R)).
           unfold keep_of, subP. rewrite erase_eq, after_sub_cons, Ek, nth_error_map_mid. cbn [erase_slot]. rewrite S1. reflexivity. }
         rewrite (after_root_keep nm [k] (k1 :: p1) (erase lt) _ A ltac:(discriminate)).
-        exists h'. eexists. split; [exact Ev|]. split; [exact R'|]. reflexivity.
+        exists h'. eexists. split; [exact Ev|]. split; [exact R'|]. split; [reflexivity|exact KP].
     + rewrite (prune_tail_case3 nm h q hq Eq) by (rewrite Lq; assumption).
       destruct (lnode_at_lsubs p lt None _ Hp) as [pp Hsub].
       assert (A : at_path (keep_of nm []) p (erase lt) = Some (erase lt)).
@@ -287,7 +296,18 @@ Proof.
         apply (erase_lreplace_at_path (keep_of nm []) _ p lt _ Hp (rep_nd _ _ R)).
         unfold keep_of. rewrite erase_eq. cbn [after_sub]. rewrite after_del_sub_keep by (rewrite map_length; assumption). reflexivity. }
       pose proof (after_root_keep nm [] p (erase lt) _ A Np) as K. rewrite app_nil_r in K. rewrite K.
-      exists h, lt. split; [reflexivity|]. split; [exact R|reflexivity].
+      exists h, lt. split; [reflexivity|]. split; [exact R|]. split; [reflexivity|apply keeps_refl].
+Qed.
+
+
+Theorem prune_tail_square nm h lt p subq : Rep h lt -> lnode_at lt p = Some subq -> (p = [] \/ length (lslots subq) <> 1) ->
+  match after_root nm p (erase lt) with
+  | Ok t' => exists h' lt', prune_tail nm (lid subq) h = HOk h' /\ Rep h' lt' /\ erase lt' = t'
+  | Err m => prune_tail nm (lid subq) h = HErr m
+  end.
+Proof.
+  intros R Hp Hs. pose proof (prune_tail_square_k nm h lt p subq R Hp Hs) as X.
+  destruct (after_root nm p (erase lt)); [|exact X]. destruct X as (h' & lt' & A & B & C & _). exists h', lt'. split; [exact A|]. split; [exact B|exact C].
 Qed.
 
 (** * the whole function *)
